@@ -38,6 +38,63 @@ pub(crate) fn get_occurrence_length(
     (max_length as i32, disp)
 }
 
+/// Walks the tokens of an LZ10/LZ11 stream and checks that no back-reference points
+/// before the start of the output. The decompressor indexes its output buffer with the
+/// displacement unchecked, so such a stream would make it panic instead of failing.
+/// Truncated streams are left for the decompressor to report.
+pub(crate) fn back_references_are_valid(bytes: &[u8]) -> bool {
+    if bytes.len() < 4 {
+        return true;
+    }
+    let lz11 = bytes[0] == 0x11;
+    let mut length = bytes[1] as usize | (bytes[2] as usize) << 8 | (bytes[3] as usize) << 16;
+    let mut pos = 4;
+    if length == 0 && lz11 {
+        if bytes.len() < 8 {
+            return true;
+        }
+        length = u32::from_le_bytes([bytes[4], bytes[5], bytes[6], bytes[7]]) as usize;
+        pos = 8;
+    }
+    let mut produced = 0;
+    while produced < length && pos < bytes.len() {
+        let flags = bytes[pos];
+        pos += 1;
+        for bit in (0..8).rev() {
+            if produced >= length {
+                break;
+            }
+            if (flags >> bit) & 1 == 0 {
+                pos += 1;
+                produced += 1;
+                continue;
+            }
+            let size = match (lz11, bytes.get(pos).map(|b| b >> 4)) {
+                (true, Some(0)) => 3,
+                (true, Some(1)) => 4,
+                _ => 2,
+            };
+            if pos + size > bytes.len() {
+                return true;
+            }
+            let b: Vec<usize> = bytes[pos..pos + size].iter().map(|x| *x as usize).collect();
+            let copy_length = match size {
+                3 => (((b[0] & 0xF) << 4) | (b[1] >> 4)) + 0x11,
+                4 => (((b[0] & 0xF) << 12) | (b[1] << 4) | (b[2] >> 4)) + 0x111,
+                _ if lz11 => (b[0] >> 4) + 1,
+                _ => (b[0] >> 4) + 3,
+            };
+            let disp = ((b[size - 2] & 0xF) << 8) | b[size - 1];
+            if disp + 1 > produced {
+                return false;
+            }
+            produced += copy_length;
+            pos += size;
+        }
+    }
+    true
+}
+
 // Based on https://github.com/VelouriasMoon/FE3D/blob/main/FE3D/LZ13.cs
 fn calculate_lz13_header(bytes: &[u8]) -> Result<usize> {
     let mut max_lead = Wrapping(0i32);
@@ -178,6 +235,9 @@ impl LZ13CompressionFormat {
             Ok(result)
         } else {
             let truncated_input = if bytes[0] == 0x13 { &bytes[4..] } else { bytes };
+            if !back_references_are_valid(truncated_input) {
+                return Err(CompressionError::InvalidInput("LZ13".to_string()));
+            }
 
             match decompress_arr(truncated_input) {
                 Ok(decompressed_data) => Ok(decompressed_data),
